@@ -18,13 +18,17 @@ use std::sync::{Arc, Mutex};
 use std::thread::{self, JoinHandle};
 use std::time::{Duration, Instant};
 
-use sozu_command_lib::proto::command::{request::RequestType, PathRule, RequestHttpFrontend, RulePosition};
+use sozu_command_lib::proto::command::{request::RequestType, PathRule, RedirectPolicy, RequestHttpFrontend, RulePosition};
 use verif_harness::rig::*;
 use verif_harness::*;
 
 const BODY_SMALL: &[u8] = b"abcdefghijklmnopqrstuvwxyz";
 const BIG_LEN: usize = 40_000;
 const OK_BODY: &[u8] = b"fine";
+/// larger than everything the kernel and sozu can buffer between backend and client
+const NOREAD_LEN: usize = 12_000_000;
+const CRED: &str = "dXNlcjpwdw=="; // user:pw
+const CRED_HASH: &str = "user:30c952fab122c3f9759f02a6d95c3758b246b4fee239957b2d4fee46e26170c4";
 
 fn big_body() -> Vec<u8> {
     (0..BIG_LEN).map(|i| b'A' + (i % 23) as u8).collect()
@@ -71,6 +75,8 @@ struct Setup {
     bt: u32,
     ct: u32,
     rt: u32,
+    /// the client talks to the HTTPS listener (H1 over TLS), routes are path prefixes of `localhost`
+    tls: bool,
 }
 
 fn kv(line: &str) -> HashMap<String, String> {
@@ -90,6 +96,7 @@ fn parse_setup(line: &str) -> Option<Setup> {
         bt: m.get("bt")?.parse().ok()?,
         ct: m.get("ct")?.parse().ok()?,
         rt: m.get("rt")?.parse().ok()?,
+        tls: m.get("tls").map(|v| v == "1").unwrap_or(false),
     })
 }
 
@@ -123,6 +130,12 @@ fn is_flt(r: &Req) -> bool {
     r.route == "flt" || r.route == "fltk"
 }
 
+/// the client sends a complete, well-formed request (possibly with credentials, pipelined
+/// with the next one, or without reading the answer for a while)
+fn complete_req(r: &Req) -> bool {
+    !matches!(r.client.as_str(), "stallhead" | "http10" | "junk")
+}
+
 fn plain(i: usize, route: &str) -> Req {
     Req {
         i,
@@ -138,7 +151,13 @@ fn plain(i: usize, route: &str) -> Req {
 
 /// the full response the backend would send for this request, and the body
 fn full_response(r: &Req, bconn: usize) -> (Vec<u8>, Vec<u8>, usize) {
-    let body: Vec<u8> = if r.big { big_body() } else { BODY_SMALL.to_vec() };
+    let body: Vec<u8> = if r.client == "noread" {
+        (0..NOREAD_LEN).map(|i| b'a' + (i % 19) as u8).collect()
+    } else if r.big {
+        big_body()
+    } else {
+        BODY_SMALL.to_vec()
+    };
     let mut head = Vec::new();
     head.extend_from_slice(format!("HTTP/1.1 200 OK\r\nX-Fault: yes\r\nX-Req: {}\r\nX-Bconn: {bconn}\r\n", r.i).as_bytes());
     if r.conn == "close" {
@@ -294,7 +313,7 @@ fn serve_conn(
         let head = String::from_utf8_lossy(&conn.received[off..head_end]).into_owned();
         off = head_end;
         let path = head.split(' ').nth(1).unwrap_or("/").to_string();
-        let idx: Option<usize> = path.strip_prefix("/r").and_then(|s| s.parse().ok());
+        let idx: Option<usize> = path.rsplit('/').next().and_then(|s| s.strip_prefix('r')).and_then(|s| s.parse().ok());
         let req = idx.and_then(|i| plan.lock().unwrap().get(&i).cloned());
         let Some(req) = req else {
             // bystander traffic: a small keep-alive 200
@@ -353,6 +372,120 @@ fn serve_conn(
     }
 }
 
+
+// ------------------------------------------------------- client connection --
+
+/// H1 client over TCP, or over TLS (HTTPS listener, ALPN http/1.1)
+struct TlsClient {
+    stream: TlsStream,
+    received: Vec<u8>,
+    parsed: usize,
+    ended: Option<ReadEnd>,
+}
+
+enum Client {
+    Plain(RawConn),
+    Tls(Box<TlsClient>),
+}
+
+impl Client {
+    fn received(&self) -> &Vec<u8> {
+        match self {
+            Client::Plain(c) => &c.received,
+            Client::Tls(t) => &t.received,
+        }
+    }
+    fn parsed(&self) -> usize {
+        match self {
+            Client::Plain(c) => c.parsed,
+            Client::Tls(t) => t.parsed,
+        }
+    }
+    fn set_parsed(&mut self, n: usize) {
+        match self {
+            Client::Plain(c) => c.parsed = n,
+            Client::Tls(t) => t.parsed = n,
+        }
+    }
+    fn write_all(&mut self, data: &[u8], timeout: Duration) -> Result<(), String> {
+        match self {
+            Client::Plain(c) => c.write_all(data, timeout).map_err(|e| format!("{e}")),
+            Client::Tls(t) => {
+                use std::io::Write;
+                let _ = t.stream.sock.set_write_timeout(Some(timeout.max(Duration::from_millis(1))));
+                t.stream.write_all(data).and_then(|_| t.stream.flush()).map_err(|e| format!("{e}"))
+            }
+        }
+    }
+    fn read_some(&mut self, timeout: Duration) -> ReadEnd {
+        match self {
+            Client::Plain(c) => c.read_some(timeout),
+            Client::Tls(t) => {
+                use std::io::Read;
+                if let Some(e) = t.ended {
+                    return e;
+                }
+                let _ = t.stream.sock.set_read_timeout(Some(timeout.max(Duration::from_millis(1))));
+                let mut buf = vec![0u8; 1 << 16];
+                match t.stream.read(&mut buf) {
+                    Ok(0) => {
+                        t.ended = Some(ReadEnd::Closed);
+                        ReadEnd::Closed
+                    }
+                    Ok(n) => {
+                        t.received.extend_from_slice(&buf[..n]);
+                        ReadEnd::Done
+                    }
+                    Err(e) => match e.kind() {
+                        std::io::ErrorKind::WouldBlock | std::io::ErrorKind::TimedOut | std::io::ErrorKind::Interrupted => ReadEnd::Timeout,
+                        // TCP closed without close_notify: an end all the same
+                        std::io::ErrorKind::UnexpectedEof => {
+                            t.ended = Some(ReadEnd::Closed);
+                            ReadEnd::Closed
+                        }
+                        _ => {
+                            t.ended = Some(ReadEnd::Reset);
+                            ReadEnd::Reset
+                        }
+                    },
+                }
+            }
+        }
+    }
+    fn read_until_closed_or(&mut self, timeout: Duration) -> ReadEnd {
+        let until = Instant::now() + timeout;
+        loop {
+            let left = until.saturating_duration_since(Instant::now());
+            if left.is_zero() {
+                return ReadEnd::Timeout;
+            }
+            match self.read_some(left) {
+                ReadEnd::Done => {}
+                ReadEnd::Timeout => return ReadEnd::Timeout,
+                e => return e,
+            }
+        }
+    }
+    fn close(self) {
+        match self {
+            Client::Plain(c) => c.close(),
+            Client::Tls(mut t) => {
+                t.stream.conn.send_close_notify();
+                let _ = t.stream.conn.complete_io(&mut t.stream.sock);
+            }
+        }
+    }
+}
+
+fn connect_client(addr: SocketAddr, tls: bool) -> Result<Client, String> {
+    if tls {
+        let stream = tls_connect(addr, "localhost", &["http/1.1"], Duration::from_secs(2)).map_err(|e| format!("{e}"))?;
+        Ok(Client::Tls(Box::new(TlsClient { stream, received: vec![], parsed: 0, ended: None })))
+    } else {
+        RawConn::connect(addr).map(Client::Plain).map_err(|e| format!("{e}"))
+    }
+}
+
 // ------------------------------------------------------- client observer --
 
 #[derive(Debug, Clone, Default)]
@@ -368,6 +501,10 @@ struct Obs {
     sozu_id: bool,
     x_req: Option<usize>,
     x_bconn: Option<usize>,
+    location: Option<String>,
+    www_authenticate: Option<String>,
+    x_custom: bool,
+    informational: usize,
     end: String, // open closed reset
     extra: usize,
     t_first: Option<Duration>,
@@ -378,8 +515,8 @@ struct Obs {
 }
 
 /// read one response with a deadline; never blocks past `deadline`
-fn observe(conn: &mut RawConn, t0: Instant, deadline: Duration, linger: Duration) -> Obs {
-    let base = conn.parsed;
+fn observe(conn: &mut Client, t0: Instant, deadline: Duration, linger: Duration) -> Obs {
+    let base = conn.parsed();
     let mut o = Obs { framing: "none".into(), end: "open".into(), ..Default::default() };
     let until = t0 + deadline;
     let left = |u: Instant| u.saturating_duration_since(Instant::now());
@@ -388,7 +525,7 @@ fn observe(conn: &mut RawConn, t0: Instant, deadline: Duration, linger: Duration
     let mut chunked = false;
     let mut ended: Option<ReadEnd> = None;
     loop {
-        let buf = &conn.received[base..];
+        let buf = &conn.received()[base..];
         if o.t_first.is_none() && !buf.is_empty() {
             o.t_first = Some(t0.elapsed());
         }
@@ -420,6 +557,9 @@ fn observe(conn: &mut RawConn, t0: Instant, deadline: Duration, linger: Duration
                             "connection" => o.conn_close_hdr |= v.eq_ignore_ascii_case("close"),
                             "sozu-id" => o.sozu_id = true,
                             "x-req" => o.x_req = v.parse().ok(),
+                            "location" => o.location = Some(v.clone()),
+                            "www-authenticate" => o.www_authenticate = Some(v.clone()),
+                            "x-custom" => o.x_custom = true,
                             "x-bconn" => o.x_bconn = v.parse().ok(),
                             _ => {}
                         }
@@ -440,7 +580,7 @@ fn observe(conn: &mut RawConn, t0: Instant, deadline: Duration, linger: Duration
             }
         }
         if let Some(he) = head_end {
-            let body = &conn.received[base + he..];
+            let body = &conn.received()[base + he..];
             if chunked {
                 // decode as far as possible
                 let (dec, done, used, bad) = dechunk(body);
@@ -451,14 +591,14 @@ fn observe(conn: &mut RawConn, t0: Instant, deadline: Duration, linger: Duration
                 if done {
                     o.complete = true;
                     o.terminal_chunk = true;
-                    conn.parsed = base + he + used;
+                    { let v = base + he + used; conn.set_parsed(v); }
                     break;
                 }
             } else if let Some(n) = cl {
                 o.body = body[..body.len().min(n)].to_vec();
                 if body.len() >= n {
                     o.complete = true;
-                    conn.parsed = base + he + n;
+                    { let v = base + he + n; conn.set_parsed(v); }
                     break;
                 }
             } else {
@@ -470,12 +610,12 @@ fn observe(conn: &mut RawConn, t0: Instant, deadline: Duration, linger: Duration
             if head_end.is_some() && !chunked && cl.is_none() {
                 o.complete = true; // delimited by the end of the connection
             }
-            conn.parsed = conn.received.len();
+            { let v = conn.received().len(); conn.set_parsed(v); }
             break;
         }
         let l = left(until);
         if l.is_zero() {
-            conn.parsed = conn.received.len();
+            { let v = conn.received().len(); conn.set_parsed(v); }
             break;
         }
         match conn.read_some(l) {
@@ -484,22 +624,22 @@ fn observe(conn: &mut RawConn, t0: Instant, deadline: Duration, linger: Duration
             e => ended = Some(e),
         }
     }
-    o.bytes = conn.received.len() - base;
+    o.bytes = conn.received().len() - base;
     o.t_done = t0.elapsed();
     // after a complete message: does the connection stay open, and silent?
     if o.end == "open" && o.complete {
-        let before = conn.received.len();
+        let before = conn.received().len();
         match conn.read_until_closed_or(linger) {
             ReadEnd::Closed => o.end = "closed".into(),
             ReadEnd::Reset => o.end = "reset".into(),
             _ => {}
         }
         o.t_linger_end = t0.elapsed();
-        o.extra = conn.received.len() - before.min(conn.received.len());
-        if before > conn.parsed {
-            o.extra += before - conn.parsed;
+        o.extra = conn.received().len() - before.min(conn.received().len());
+        if before > conn.parsed() {
+            o.extra += before - conn.parsed();
         }
-        conn.parsed = conn.received.len();
+        { let v = conn.received().len(); conn.set_parsed(v); }
     }
     o
 }
@@ -581,12 +721,28 @@ struct Faults;
 
 /// what the property allows for a scenario, derived from its text only
 /// (routing outcome / fault point → cause → status), independent of the model
-fn property_allows(r: &Req, first_on_conn: bool) -> Vec<&'static str> {
+fn property_allows(r: &Req, first_on_conn: bool, tls: bool) -> Vec<&'static str> {
     let _ = first_on_conn;
+    if tls && r.route == "badhost" {
+        // not a name of the certificate either
+        return vec!["default:400", "default:421"];
+    }
     if r.client == "stallhead" {
         return vec!["default:408"];
     }
+    if r.client == "http10" || r.client == "junk" {
+        return vec!["default:400"];
+    }
     match r.route.as_str() {
+        "sni421" => return vec!["default:421"],
+        "refuse4" => return vec!["default:503"],
+        "redir301" => return vec!["default:301"],
+        "redir302" => return vec!["default:302"],
+        "redir308" => return vec!["default:308"],
+        "unauth" => return vec!["default:401"],
+        "auth" => return if r.client == "cred" { vec!["relayed"] } else { vec!["default:401"] },
+        // denial comes before the per-IP limit; with valid credentials the limit applies
+        "limauth" => return if r.client == "cred" { vec!["default:429"] } else { vec!["default:401"] },
         "unknown" => return vec!["default:404"],
         "deny" => return vec!["default:401"],
         "nobackend" | "refuse" => return vec!["default:503"],
@@ -596,6 +752,10 @@ fn property_allows(r: &Req, first_on_conn: bool) -> Vec<&'static str> {
     }
     if r.shape == "garbage" {
         return vec!["default:502"];
+    }
+    if r.client == "noread" {
+        // the client does not read: the timers end the exchange, the body can never be complete
+        return vec!["abort"];
     }
     match r.cut.as_str() {
         // connection closed at accept: closed early (502) or no usable backend (503);
@@ -633,7 +793,7 @@ fn property_allows(r: &Req, first_on_conn: bool) -> Vec<&'static str> {
 fn known_defect(r: &Req, kind: &str, o: &Obs) -> Option<&'static str> {
     let cut_partial = matches!(r.cut.as_str(), "hdrend" | "body" | "chunkline" | "beforelast");
     let ended = r.end == "close" || r.end == "reset";
-    if !is_flt(r) || r.client != "full" || !ended {
+    if !is_flt(r) || !complete_req(r) || !ended {
         return None;
     }
     if r.shape == "cl" && r.conn == "close" && cut_partial
@@ -666,6 +826,9 @@ fn time_bound(r: &Req, s: &Setup, first_on_conn: bool) -> Duration {
     if r.client == "stallhead" {
         return sec(if first_on_conn { s.rt.max(s.ft) } else { s.ft }) + slack;
     }
+    if r.client == "noread" {
+        return sec(s.ft + s.bt) * 2 + slack;
+    }
     if !is_flt(r) {
         return slack;
     }
@@ -683,12 +846,15 @@ fn time_bound(r: &Req, s: &Setup, first_on_conn: bool) -> Duration {
 }
 
 fn reuses_stalled_now(stalled: bool, r: &Req) -> bool {
-    stalled && is_flt(r) && r.client == "full"
+    stalled && is_flt(r) && complete_req(r)
 }
 
 struct World {
     w: Worker,
     front: SocketAddr,
+    /// HTTPS listener (certificate for `localhost`), same clusters routed by path prefix
+    fronts: SocketAddr,
+    _dead4: Vec<Reservation>,
     flt: FaultBackend,
     ok: FaultBackend,
     _dead: Reservation,
@@ -707,6 +873,9 @@ fn build_world(s: &Setup) -> RigResult<World> {
         ..WorkerOpts::default()
     })?;
     let front = w.add_http_listener()?;
+    // (both listeners exist before any cluster is added)
+    let fronts = w.add_https_listener()?;
+    w.add_certificate(fronts, asset("local-certificate.pem")?, asset("local-key.pem")?, vec![])?;
     let flt = FaultBackend::start()?;
     let ok = FaultBackend::start()?;
     let dead = dead_addr()?;
@@ -744,7 +913,83 @@ fn build_world(s: &Setup) -> RigResult<World> {
     w.add_cluster(lim)?;
     w.add_http_frontend(front, "lim.test", "/", "lim")?;
     w.add_backend("lim", "lim-0", ok.addr)?;
-    Ok(World { w, front, flt, ok, _dead: dead })
+    // ---- routing decisions that never reach a backend: redirects, denial, basic auth ----
+    let fe = |host: &str, cluster: Option<&str>| RequestHttpFrontend {
+        cluster_id: cluster.map(|c| c.to_string()),
+        address: front.into(),
+        hostname: host.into(),
+        path: PathRule::prefix("/".to_string()),
+        position: RulePosition::Tree.into(),
+        ..Default::default()
+    };
+    // legacy cluster-level https redirect on an HTTP listener -> 301
+    let mut red = cluster("red");
+    red.https_redirect = true;
+    w.add_cluster(red)?;
+    w.add_http_frontend(front, "red.test", "/", "red")?;
+    w.add_backend("red", "red-0", ok.addr)?;
+    // frontend policy Found, no cluster at all, own template -> 302
+    let mut f302 = fe("found.test", None);
+    f302.redirect = Some(RedirectPolicy::Found as i32);
+    f302.redirect_template = Some(
+        "HTTP/1.1 302 Found\r\nLocation: %REDIRECT_LOCATION\r\nX-Custom: yes\r\nConnection: close\r\nSozu-Id: %REQUEST_ID\r\n\r\n".to_string(),
+    );
+    w.request_ok(RequestType::AddHttpFrontend(f302))?;
+    // frontend policy PermanentRedirect wins over required_auth -> 308
+    w.add_cluster(cluster("perm"))?;
+    w.add_backend("perm", "perm-0", ok.addr)?;
+    let mut f308 = fe("perm.test", Some("perm"));
+    f308.redirect = Some(RedirectPolicy::PermanentRedirect as i32);
+    f308.required_auth = Some(true);
+    w.request_ok(RequestType::AddHttpFrontend(f308))?;
+    // frontend policy Unauthorized although a cluster with a backend exists -> 401
+    w.add_cluster(cluster("una"))?;
+    w.add_backend("una", "una-0", ok.addr)?;
+    let mut fun = fe("una.test", Some("una"));
+    fun.redirect = Some(RedirectPolicy::Unauthorized as i32);
+    w.request_ok(RequestType::AddHttpFrontend(fun))?;
+    // basic auth
+    let mut auth = cluster("auth");
+    auth.authorized_hashes = vec![CRED_HASH.to_string()];
+    auth.www_authenticate = Some("Basic realm=\"c02\"".to_string());
+    w.add_cluster(auth)?;
+    w.add_backend("auth", "auth-0", ok.addr)?;
+    let mut fau = fe("auth.test", Some("auth"));
+    fau.required_auth = Some(true);
+    w.request_ok(RequestType::AddHttpFrontend(fau))?;
+    // basic auth + per-IP limit of one: denial comes before the limit
+    let mut la = cluster("limauth");
+    la.authorized_hashes = vec![CRED_HASH.to_string()];
+    la.max_connections_per_ip = Some(1);
+    w.add_cluster(la)?;
+    w.add_backend("limauth", "limauth-0", ok.addr)?;
+    let mut fla = fe("limauth.test", Some("limauth"));
+    fla.required_auth = Some(true);
+    w.request_ok(RequestType::AddHttpFrontend(fla))?;
+    // four refusing backends: the per-request retry budget (CONN_RETRIES) ends the attempts
+    let mut dead4 = vec![];
+    w.add_cluster(cluster("ref4"))?;
+    w.add_http_frontend(front, "ref4.test", "/", "ref4")?;
+    for k in 0..4 {
+        let d = dead_addr()?;
+        w.add_backend("ref4", &format!("ref4-{k}"), d.addr)?;
+        dead4.push(d);
+    }
+    // ---- HTTPS listener: certificate `localhost`, the clusters as path prefixes ----
+    for (prefix, cl) in [("/flt/", "flt"), ("/fltk/", "fltk"), ("/nob/", "nob"), ("/ref/", "refc"), ("/ok/", "okc")] {
+        w.add_https_frontend(fronts, "localhost", prefix, cl)?;
+    }
+    let mut fd = RequestHttpFrontend {
+        cluster_id: None,
+        address: fronts.into(),
+        hostname: "localhost".into(),
+        path: PathRule::prefix("/deny/".to_string()),
+        position: RulePosition::Tree.into(),
+        ..Default::default()
+    };
+    fd.redirect = None;
+    w.request_ok(RequestType::AddHttpsFrontend(fd))?;
+    Ok(World { w, front, fronts, _dead4: dead4, flt, ok, _dead: dead })
 }
 
 fn host_of(route: &str) -> &'static str {
@@ -755,16 +1000,57 @@ fn host_of(route: &str) -> &'static str {
         "nobackend" => "nob.test",
         "deny" => "deny.test",
         "refuse" => "ref.test",
+        "refuse4" => "ref4.test",
         "limit" => "lim.test",
+        "redir301" => "red.test",
+        "redir302" => "found.test",
+        "redir308" => "perm.test",
+        "unauth" => "una.test",
+        "auth" => "auth.test",
+        "limauth" => "limauth.test",
         _ => "bad host%zz",
     }
+}
+
+/// the bytes of request `r`: plain listener = routed by Host; HTTPS listener = Host `localhost`
+/// (the only name of the certificate), routed by the first path segment
+fn request_bytes(r: &Req, tls: bool) -> Vec<u8> {
+    match r.client.as_str() {
+        "http10" => return format!("GET /r{} HTTP/1.0\r\n\r\n", r.i).into_bytes(),
+        "junk" => return b"\x01\x02 not a request line\r\n\r\n".to_vec(),
+        _ => {}
+    }
+    let (host, path) = if tls {
+        let seg = match r.route.as_str() {
+            "flt" => "flt",
+            "fltk" => "fltk",
+            "nobackend" => "nob",
+            "refuse" => "ref",
+            "deny" => "deny",
+            _ => "nowhere",
+        };
+        let host = match r.route.as_str() {
+            "sni421" => "other.test",
+            "badhost" => "bad host%zz",
+            _ => "localhost",
+        };
+        (host, format!("/{seg}/r{}", r.i))
+    } else {
+        (host_of(&r.route), format!("/r{}", r.i))
+    };
+    let auth = match r.client.as_str() {
+        "cred" => format!("Authorization: Basic {CRED}\r\n"),
+        "badcred" => "Authorization: Basic dXNlcjpub3Bl\r\n".to_string(),
+        _ => String::new(),
+    };
+    format!("GET {path} HTTP/1.1\r\nHost: {host}\r\n{auth}X-Case: c02\r\n\r\n").into_bytes()
 }
 
 /// Ok(Some(t)): served; Ok(None): inconclusive (sozu answered 504: the bystander's own
 /// scripted backend was not scheduled within the back timeout); Err: not served
 fn bystander_once(front: SocketAddr) -> Result<Option<Duration>, String> {
     let t0 = Instant::now();
-    let mut c = RawConn::connect(front).map_err(|e| format!("connect: {e}"))?;
+    let mut c = connect_client(front, false).map_err(|e| format!("connect: {e}"))?;
     c.write_all(b"GET /by HTTP/1.1\r\nHost: ok.test\r\n\r\n", Duration::from_secs(1))
         .map_err(|e| format!("write: {e}"))?;
     let o = observe(&mut c, t0, Duration::from_millis(3000), Duration::ZERO);
@@ -788,12 +1074,17 @@ impl Faults {
     fn gen_req(&self, rng: &mut Rng, i: usize, thorough: bool) -> Req {
         let r = rng.below(100);
         if r < 22 {
-            let route = *rng.pick(&["unknown", "nobackend", "deny", "refuse", "limit", "badhost"]);
-            return plain(i, route);
+            let route = *rng.pick(&["unknown", "nobackend", "deny", "refuse", "limit", "badhost", "redir301", "redir302",
+                "redir308", "unauth", "auth", "limauth", "refuse4"]);
+            let mut q = plain(i, route);
+            if matches!(route, "auth" | "limauth" | "redir308") {
+                q.client = rng.pick(&["full", "cred", "badcred"]).to_string();
+            }
+            return q;
         }
         if r < 27 {
             let mut q = plain(i, "flt");
-            q.client = "stallhead".into();
+            q.client = rng.pick(&["stallhead", "stallhead", "http10", "junk"]).to_string();
             return q;
         }
         let mut q = plain(i, "flt");
@@ -823,7 +1114,7 @@ impl Faults {
 }
 
 fn ops_of(s: &Setup, reqs: &[Req]) -> Vec<String> {
-    let mut v = vec![format!("new ft={} bt={} ct={} rt={}", s.ft, s.bt, s.ct, s.rt)];
+    let mut v = vec![format!("new ft={} bt={} ct={} rt={} tls={}", s.ft, s.bt, s.ct, s.rt, s.tls as u8)];
     v.extend(reqs.iter().map(fmt_req));
     v
 }
@@ -846,7 +1137,7 @@ impl Area for Faults {
         1_000_000 // cases cost seconds: no shrinking (they are 1-3 requests anyway)
     }
     fn corpus(&self) -> Vec<Vec<String>> {
-        let s = Setup { ft: 1, bt: 1, ct: 1, rt: 1 };
+        let s = Setup { ft: 1, bt: 1, ct: 1, rt: 1, tls: false };
         let f = |shape: &str, conn: &str, cut: &str, end: &str| {
             let mut q = plain(0, "flt");
             q.shape = shape.into();
@@ -895,9 +1186,76 @@ impl Area for Faults {
         };
         for first in [fk("garbage", "full", "late"), fk("cl", "none", "late"), fk("cl", "none", "stall"),
                       fk("cl", "status", "close"), fk("cl", "headers", "reset"), fk("garbage", "full", "stall")] {
-            let sk = Setup { ft: 3, bt: 1, ct: 1, rt: 3 };
+            let sk = Setup { ft: 3, bt: 1, ct: 1, rt: 3, tls: false };
             v.push(ops_of(&sk, &[first.clone(), plain(1, "fltk"), plain(2, "fltk")]));
             v.push(ops_of(&sk, &[plain(0, "fltk"), { let mut q = first.clone(); q.i = 1; q }, plain(2, "fltk")]));
+        }
+        // routing decisions in front of any backend: redirects, denial, credentials, limits
+        for route in ["redir301", "redir302", "redir308", "unauth", "refuse4", "auth", "limauth"] {
+            v.push(ops_of(&s, &[plain(0, route), plain(1, "flt")]));
+        }
+        for (route, client) in [("auth", "cred"), ("auth", "badcred"), ("limauth", "cred"), ("limauth", "badcred"), ("redir308", "cred")] {
+            let mut q = plain(0, route);
+            q.client = client.into();
+            v.push(ops_of(&s, &[q, plain(1, "flt")]));
+        }
+        // requests that do not parse / lack what a request needs
+        for client in ["http10", "junk"] {
+            let mut q = plain(0, "flt");
+            q.client = client.into();
+            v.push(ops_of(&s, &[q.clone(), plain(1, "flt")]));
+            let mut q1 = q.clone();
+            q1.i = 1;
+            v.push(ops_of(&s, &[plain(0, "flt"), q1]));
+        }
+        // two requests in one write (the second is parsed from sozu's buffer when the first is done)
+        {
+            let mut p0 = plain(0, "flt");
+            p0.client = "pipe".into();
+            v.push(ops_of(&s, &[p0.clone(), plain(1, "flt"), plain(2, "flt")]));
+            let mut p1 = p0.clone();
+            p1.shape = "chunked".into();
+            let mut second = f("cl", "ka", "none", "close");
+            second.i = 1;
+            v.push(ops_of(&s, &[p1.clone(), second, plain(2, "flt")]));
+            let mut second = plain(1, "unknown");
+            second.i = 1;
+            v.push(ops_of(&s, &[p1, second]));
+        }
+        // the client does not read a response larger than every buffer on the way: whichever
+        // timer fires first ends it; and a backend stalled mid-response with the front timer first
+        for (ft, bt) in [(1, 3), (3, 1)] {
+            let sk = Setup { ft, bt, ct: 1, rt: 3, tls: false };
+            let mut q = plain(0, "flt");
+            q.client = "noread".into();
+            v.push(ops_of(&sk, &[q]));
+        }
+        for (shape, cut) in [("cl", "body"), ("chunked", "body"), ("cl", "hdrend"), ("uc", "body")] {
+            v.push(ops_of(&Setup { ft: 1, bt: 3, ct: 1, rt: 1, tls: false }, &[f(shape, "ka", cut, "stall"), plain(1, "flt")]));
+        }
+        // ---- the same over the HTTPS listener (H1 over TLS) ----
+        {
+            let st = Setup { ft: 1, bt: 1, ct: 1, rt: 1, tls: true };
+            for route in ["unknown", "nobackend", "deny", "refuse", "sni421", "badhost"] {
+                v.push(ops_of(&st, &[plain(0, route), plain(1, "flt")]));
+            }
+            for (shape, conn, cut, end) in [
+                ("cl", "ka", "none", "close"), ("cl", "ka", "headers", "stall"), ("cl", "ka", "body", "close"),
+                ("cl", "close", "body", "close"), ("chunked", "ka", "body", "reset"), ("chunked", "close", "hdrend", "close"),
+                ("uc", "close", "full", "close"), ("cl", "ka", "body", "stall"), ("garbage", "ka", "full", "close"),
+                ("cl", "ka", "full", "close"), ("chunked", "ka", "full", "keep"),
+            ] {
+                v.push(ops_of(&st, &[f(shape, conn, cut, end), plain(1, "flt"), plain(2, "flt")]));
+            }
+            let mut big = f("cl", "ka", "full", "keep");
+            big.big = true;
+            v.push(ops_of(&st, &[big, plain(1, "flt")]));
+            let mut sh = plain(0, "flt");
+            sh.client = "stallhead".into();
+            v.push(ops_of(&st, &[sh]));
+            let stk = Setup { ft: 3, bt: 1, ct: 1, rt: 3, tls: true };
+            v.push(ops_of(&stk, &[fk("garbage", "full", "late"), plain(1, "fltk"), plain(2, "fltk")]));
+            v.push(ops_of(&stk, &[fk("cl", "none", "late"), plain(1, "fltk")]));
         }
         // client never finishes its request head (first request, then after a keep-alive one)
         let mut st = plain(0, "flt");
@@ -907,8 +1265,8 @@ impl Area for Faults {
         st1.i = 1;
         v.push(ops_of(&s, &[plain(0, "flt"), st1]));
         // different timers
-        v.push(ops_of(&Setup { ft: 2, bt: 1, ct: 1, rt: 1 }, &[f("cl", "ka", "none", "stall")]));
-        v.push(ops_of(&Setup { ft: 1, bt: 2, ct: 1, rt: 2 }, &[f("cl", "ka", "none", "stall")]));
+        v.push(ops_of(&Setup { ft: 2, bt: 1, ct: 1, rt: 1, tls: false }, &[f("cl", "ka", "none", "stall")]));
+        v.push(ops_of(&Setup { ft: 1, bt: 2, ct: 1, rt: 2, tls: false }, &[f("cl", "ka", "none", "stall")]));
         // big bodies
         let mut b = f("cl", "close", "body", "close");
         b.big = true;
@@ -922,8 +1280,29 @@ impl Area for Faults {
     }
     fn gen(&self, rng: &mut Rng, thorough: bool) -> Vec<String> {
         if rng.chance(12, 100) {
+            // H1 over TLS: the routes the HTTPS listener knows
+            let st = Setup { ft: 1, bt: 1, ct: 1, rt: 1, tls: true };
+            let n = rng.range(1, 3) as usize;
+            let mut reqs: Vec<Req> = vec![];
+            for i in 0..n {
+                let mut q = self.gen_req(rng, i, thorough);
+                if !matches!(q.route.as_str(), "flt" | "unknown" | "nobackend" | "deny" | "refuse" | "badhost") {
+                    q = plain(i, "sni421");
+                }
+                if !matches!(q.client.as_str(), "full" | "stallhead") {
+                    q.client = "full".into();
+                }
+                let last = q.cut.starts_with("accept");
+                reqs.push(q);
+                if last {
+                    break;
+                }
+            }
+            return ops_of(&st, &reqs);
+        }
+        if rng.chance(12, 100) {
             // failure on a surviving session, then follow-ups to the same cluster
-            let sk = Setup { ft: 3, bt: 1, ct: 1, rt: 3 };
+            let sk = Setup { ft: 3, bt: 1, ct: 1, rt: 3, tls: false };
             let mut first = plain(0, "fltk");
             match rng.below(6) {
                 0 | 1 => {
@@ -959,6 +1338,7 @@ impl Area for Faults {
             bt: *rng.pick(&[1, 1, 1, 2]),
             ct: 1,
             rt: *rng.pick(&[1, 1, 2]),
+            tls: false,
         };
         let n = rng.range(1, 3) as usize;
         let mut reqs: Vec<Req> = vec![];
@@ -1028,8 +1408,10 @@ impl Area for Faults {
         };
         run.out.push("ok".into());
         let front = world.front;
-        let mut conn: Option<RawConn> = None;
-        let mut holders: Vec<RawConn> = vec![];
+        let mut conn: Option<Client> = None;
+        // a request already on the wire (pipelined with the previous one)
+        let mut presented: Option<usize> = None;
+        let mut holders: Vec<Client> = vec![];
         // the session's keep-alive backend connection belongs to a peer that stopped reading
         let mut stalled_backend = false;
         // backend connections (serials) that carried an exchange which did not end well
@@ -1040,16 +1422,16 @@ impl Area for Faults {
                 continue;
             };
             run.tags.push(format!("route:{}", r.route));
-            if is_flt(&r) && r.client == "full" {
+            if is_flt(&r) && complete_req(&r) {
                 run.tags.push(format!("fault:{}:{}:{}:{}", r.shape, r.conn, r.cut, r.end));
                 if r.big {
                     run.tags.push("big-body".into());
                 }
             }
-            if r.client != "full" {
+            if !complete_req(&r) {
                 run.tags.push(format!("client:{}", r.client));
             }
-            if !(is_flt(&r) && r.client == "full" && r.cut == "full" && r.shape != "garbage") {
+            if !(is_flt(&r) && complete_req(&r) && r.cut == "full" && r.shape != "garbage") {
                 run.nontrivial = true;
             }
             // arm the backend
@@ -1066,15 +1448,21 @@ impl Area for Faults {
                 },
                 Ordering::SeqCst,
             );
-            if r.route == "limit" {
+            let front_for_case = if setup.tls { world.fronts } else { front };
+            if r.route == "limit" || (r.route == "limauth" && r.client == "cred") {
+                let hold_req = if r.route == "limit" {
+                    "GET /hold HTTP/1.1\r\nHost: lim.test\r\n\r\n".to_string()
+                } else {
+                    format!("GET /hold HTTP/1.1\r\nHost: limauth.test\r\nAuthorization: Basic {CRED}\r\n\r\n")
+                };
                 // (a holder left idle is closed by sozu's front timer: take a fresh one)
                 holders.clear();
                 // another frontend connection of this IP already holds the cluster's only slot
                 // (part of the set-up of this request: if it cannot be had, the request says nothing)
                 let mut held = false;
                 for _ in 0..3 {
-                    if let Ok(mut h) = RawConn::connect(front) {
-                        let _ = h.write_all(b"GET /hold HTTP/1.1\r\nHost: lim.test\r\n\r\n", Duration::from_secs(1));
+                    if let Ok(mut h) = connect_client(front, false) {
+                        let _ = h.write_all(hold_req.as_bytes(), Duration::from_secs(1));
                         let ho = observe(&mut h, Instant::now(), Duration::from_secs(3), Duration::ZERO);
                         if ho.status == Some(200) {
                             holders.push(h);
@@ -1094,7 +1482,8 @@ impl Area for Faults {
             if conn.is_none() {
                 stalled_backend = false;
                 failed_conns.clear();
-                match RawConn::connect(front) {
+                presented = None;
+                match connect_client(front_for_case, setup.tls) {
                     Ok(c) => conn = Some(c),
                     Err(e) => {
                         // the request never went on the wire; a worker that really stopped
@@ -1107,21 +1496,34 @@ impl Area for Faults {
                 }
             }
             let c = conn.as_mut().unwrap();
-            let reqbytes = format!("GET /r{} HTTP/1.1\r\nHost: {}\r\nX-Case: c02\r\n\r\n", r.i, host_of(&r.route));
-            let tosend: &[u8] = if r.client == "stallhead" {
-                &reqbytes.as_bytes()[..reqbytes.len() - 9]
-            } else {
-                reqbytes.as_bytes()
-            };
+            let mut reqbytes = request_bytes(&r, setup.tls);
+            if r.client == "stallhead" {
+                let n = reqbytes.len() - 9;
+                reqbytes.truncate(n);
+            }
+            let already_sent = presented == Some(r.i);
+            presented = None;
+            if r.client == "pipe" {
+                // the next request travels in the same write
+                if let Some(next) = ops.iter().skip(1).filter_map(|l| parse_req(l)).find(|q| q.i == r.i + 1) {
+                    world.flt.plan.lock().unwrap().insert(next.i, next.clone());
+                    reqbytes.extend_from_slice(&request_bytes(&next, setup.tls));
+                    presented = Some(next.i);
+                }
+            }
             let t0 = Instant::now();
-            let wrote = c.write_all(tosend, Duration::from_secs(1));
-            let bound = if stalled_backend && is_flt(&r) && r.client == "full" {
+            let wrote = if already_sent { Ok(()) } else { c.write_all(&reqbytes, Duration::from_secs(1)) };
+            if r.client == "noread" {
+                // do not read until both timers had their chance
+                thread::sleep(Duration::from_millis((setup.ft + setup.bt) as u64 * 1000 + 700));
+            }
+            let bound = if stalled_backend && is_flt(&r) && complete_req(&r) {
                 Duration::from_secs((setup.bt + setup.ft) as u64) + Duration::from_millis(2500)
             } else {
                 time_bound(&r, &setup, first_on_conn)
             };
             // a well-behaved request on another connection while this one is in trouble
-            let by = if r.end == "stall" || r.client != "full" {
+            let by = if r.end == "stall" || !complete_req(&r) || r.client == "noread" {
                 thread::sleep(Duration::from_millis(50));
                 Some(bystander(front))
             } else {
@@ -1139,7 +1541,7 @@ impl Area for Faults {
             // on an overloaded machine the scripted backend may not get to read the request
             // before sozu's back timer fires: sozu's 504 is then right and says nothing about
             // the scenario (counted; more than a handful per run is itself reported)
-            let backend_acts = is_flt(&r) && r.client == "full" && !r.cut.starts_with("accept");
+            let backend_acts = is_flt(&r) && complete_req(&r) && !r.cut.starts_with("accept");
             if backend_acts && !reuses_stalled_now(stalled_backend, &r) && failed_conns.is_empty() && kind == "default:504" && world.flt.hits(r.i) == 0 {
                 run.tags.push("inconclusive:backend-not-scheduled".into());
                 run.out.push("obs inconclusive".into());
@@ -1161,16 +1563,18 @@ impl Area for Faults {
             }
             run.tags.push(format!("outcome:{kind}"));
             run.out.push(format!(
-                "obs {tok} framing={} got={} hits={} t={}ms",
+                "obs {tok} framing={} got={} hits={} bconns={:?} xreq={:?} t={}ms",
                 o.framing,
                 o.body.len(),
                 world.flt.hits(r.i),
+                world.flt.conns_of(r.i),
+                o.x_req,
                 o.t_done.as_millis()
             ));
             // ------------------------------------------------ property oracles --
             let what = format!("{} -> {tok} (framing {}, {} body bytes, end {}, {:?})", fmt_req(&r), o.framing, o.body.len(), o.end, o.t_done);
-            let reuses_stalled = stalled_backend && is_flt(&r) && r.client == "full";
-            let allowed = if reuses_stalled { vec!["default:504"] } else { property_allows(&r, first_on_conn) };
+            let reuses_stalled = stalled_backend && is_flt(&r) && complete_req(&r);
+            let allowed = if reuses_stalled { vec!["default:504"] } else { property_allows(&r, first_on_conn, setup.tls) };
             let known = known_defect(&r, &kind, &o);
             let mut found: Vec<(String, String)> = vec![];
             if !allowed.iter().any(|a| *a == kind) {
@@ -1214,11 +1618,29 @@ impl Area for Faults {
             if kind == "default:504" && o.t_done + Duration::from_millis(300) < Duration::from_secs(setup.bt.min(setup.ft) as u64) {
                 found.push(("timeout-answer-too-early".into(), what.clone()));
             }
+            // ---- the generated answer says what its cause needs ----
+            let loc_want = match r.route.as_str() {
+                "redir301" => Some(format!("https://red.test/r{}", r.i)),
+                "redir302" => Some(format!("http://found.test/r{}", r.i)),
+                "redir308" => Some(format!("http://perm.test/r{}", r.i)),
+                _ => None,
+            };
+            if let Some(want) = loc_want {
+                if kind.starts_with("default:3") && o.location.as_deref() != Some(want.as_str()) {
+                    found.push(("redirect-location-wrong".into(), format!("Location {:?}, wanted {want:?}; {what}", o.location)));
+                }
+                if r.route == "redir302" && kind == "default:302" && !o.x_custom {
+                    found.push(("frontend-redirect-template-ignored".into(), what.clone()));
+                }
+            }
+            if r.route == "auth" && kind == "default:401" && o.www_authenticate.as_deref() != Some("Basic realm=\"c02\"") {
+                found.push(("www-authenticate-missing".into(), format!("{:?}; {what}", o.www_authenticate)));
+            }
             // ---- a failure of one request must not leak into the next one ----
             // (the scripted backend numbers its connections and tags every answer with the
             // request it answers and the connection it is sent on)
             let mut stale_after: Option<String> = None;
-            if is_flt(&r) && r.client == "full" {
+            if is_flt(&r) && complete_req(&r) {
                 let mine = world.flt.conns_of(r.i);
                 if let Some((c, why)) = failed_conns.iter().find(|(c, _)| mine.contains(c)) {
                     stale_after = Some(why.clone());
@@ -1252,13 +1674,19 @@ impl Area for Faults {
                     failed_conns.extend(mine.into_iter().map(|c| (c, why.clone())));
                 }
             }
+            // found in the unchanged code: a request pipelined with the previous one is answered 408
+            let known = if already_sent && kind == "default:408" && complete_req(&r) {
+                Some("pipelined-request-answered-408")
+            } else {
+                known
+            };
+            let leak = stale_after.is_some() || (already_sent && kind == "default:408");
             // known defect of the unchanged code: after a back-timer 504 the connection is parked
             let known = if stale_after.as_deref() == Some("default:504") {
                 Some("timed-out-backend-connection-parked-and-reused")
             } else {
                 known
             };
-            let leak = stale_after.is_some();
             for (class, detail) in found {
                 // the consequences of a known defect are reported under its fingerprint
                 let consequence = (leak && (class == "stale-backend-connection-reused"
